@@ -59,3 +59,48 @@ pub fn alias_str(bytes: &'static mut [u8]) -> String {
 pub unsafe fn alias_vec<T>(ptr: *mut T, len: usize) -> Vec<T> {
     Vec::from_raw_parts(ptr, len, 0)
 }
+
+// ---------------------------------------------------------------------------------------------------------
+// C13: symbolic path strings. L bytes, each from the alphabet {'.', '/', 'a'}: this alphabet generates every
+// lexical class the property names (absolute, `..` in any position, `.`, empty components, trailing slashes).
+// `path_escapes` is the reference classifier written from the property statement: the string is absolute or one of
+// its '/'-separated segments is exactly "..".
+// ---------------------------------------------------------------------------------------------------------
+#[allow(dead_code)]
+pub fn sym_path_bytes<const L: usize>() -> [u8; L] {
+    let b: [u8; L] = kani::any();
+    let mut i = 0;
+    while i < L {
+        kani::assume(b[i] == b'.' || b[i] == b'/' || b[i] == b'a');
+        i += 1;
+    }
+    b
+}
+
+#[allow(dead_code)]
+pub fn path_escapes(b: &[u8]) -> bool {
+    if !b.is_empty() && b[0] == b'/' {
+        return true;
+    }
+    // segment scan: seg_len counts bytes of the current segment, dots counts leading '.' bytes if it is all dots
+    let mut seg_len = 0usize;
+    let mut all_dots = true;
+    let mut i = 0;
+    let mut esc = false;
+    while i <= b.len() {
+        if i == b.len() || b[i] == b'/' {
+            if seg_len == 2 && all_dots {
+                esc = true;
+            }
+            seg_len = 0;
+            all_dots = true;
+        } else {
+            if b[i] != b'.' {
+                all_dots = false;
+            }
+            seg_len += 1;
+        }
+        i += 1;
+    }
+    esc
+}
